@@ -2,6 +2,7 @@ package presence
 
 import (
 	"bytes"
+	"time"
 
 	"github.com/kelindar/binary"
 
@@ -55,4 +56,52 @@ func VerifC09PresenceSurvey(v *verifrt.T) {
 	if !locked {
 		trie.Unlock()
 	}
+}
+
+// ---- survey responses ----
+
+type c09psAwaiter struct{ resp [][]byte }
+
+func (a *c09psAwaiter) Gather(time.Duration) [][]byte { return a.resp }
+
+type c09psSurvey struct{ resp [][]byte }
+
+func (s *c09psSurvey) Query(string, []byte) (message.Awaiter, error) {
+	return &c09psAwaiter{resp: s.resp}, nil
+}
+
+// binary.Unmarshal into a *[]Info: reflectSliceCodec (count, allocation for the declared
+// count, then every element) over the struct codec of Info (two strings read with
+// ReadString), transcribed from codecs.go v1.0.19 over the real Decoder.
+func c09psUnmarshalInfo(b []byte, out interface{}) error {
+	if o, ok := out.(*message.Ssid); ok {
+		return c09psUnmarshal(b, o)
+	}
+	d := binary.NewDecoder(bytes.NewBuffer(b))
+	o := out.(*[]Info)
+	l, err := d.ReadUvarint()
+	if err == nil && l > 0 {
+		*o = make([]Info, int(l))
+		for i := 0; i < int(l); i++ {
+			if (*o)[i].ID, err = d.ReadString(); err != nil {
+				return err
+			}
+			if (*o)[i].Username, err = d.ReadString(); err != nil {
+				return err
+			}
+		}
+	}
+	return err
+}
+
+// VerifC09PresenceResponse: the answer of a peer to a presence survey is arbitrary bytes
+// too; gathering the cluster's presence must not panic or allocate for a declared count.
+func VerifC09PresenceResponse(v *verifrt.T) {
+	resp := v.Bytes(v.Choice(v.Bound("surveybytes")+1, "n"), "r")
+	s := &Service{trie: message.NewTrie(), survey: &c09psSurvey{resp: [][]byte{resp}}}
+	var who []Info
+	panicked := v.Try(func() { who = s.getClusterPresence(message.Ssid{1, 2}) })
+	v.Reach("responses-gathered")
+	v.Assert(!panicked, "C09.presence-response.no-panic")
+	v.Assert(len(who) <= len(resp), "C09.presence-response.entries-within-input")
 }
